@@ -254,13 +254,21 @@ def exported_macros_rule(F, R):
            "module does not provide are handed to every requirer" % ", ".join(sorted(prov)) , fn.loc(init[0]["line"] if init else None),
            sample={"initialiser_fields": sorted(prov)})
     # (2) insertions
+    # the maps that hold the provided macros: the returned one, and any map its contents were moved / copied into
+    # (`let provided = mem::take(&mut in_scope_macros)`)
+    provided_maps = {exported}
+    for i, b in fn.calls():
+        if b.get("dest") and re.search(r"core::mem::(take|replace)$|::clone$", b["callee"]) and b["args"]:
+            if exported in {o.split(".")[0] for o in c07._origins(fn, re.match(r"_\d+", b["args"][0]).group(0), maps, depth=6)}:
+                provided_maps.add(b["dest"].split(".")[0])
     member = {}
     for i, b in fn.calls():
         if re.search(r"HashMap<K,V,S,A>\}::(contains_key|remove|get)$", b["callee"]):
             al = lib.alias_sources(fn, re.match(r"_\d+", b["args"][0]).group(0))
-            if exported in al and b.get("dest"):
+            if (provided_maps & set(al)) and b.get("dest"):
                 member[i] = b["dest"].split(".")[0]
     infeasible = _repeated_accessor_infeasible(fn)
+    requested_sites = []
     n = 0
     for i, b in ins:
         al = lib.alias_sources(fn, re.match(r"_\d+", b["args"][0]).group(0))
@@ -294,6 +302,8 @@ def exported_macros_rule(F, R):
                 # or the test comes first: test and branch both dominate the insertion
                 if g in dom[i] and sb in dom[i]:
                     guarded = True
+        if requested:
+            requested_sites.append(i)
         ok = guarded or (provided and not requested)
         R.inst("C14.f", "find_in_scope_macros / insertion at the %s of a %s name" % (
             "guarded request" if guarded else "loop over the provide forms" if provided else "unguarded use",
@@ -304,4 +314,16 @@ def exported_macros_rule(F, R):
                "module's private definitions)" % (b["line"], "comes from the requirer's only-in / rename list" if requested else
                                                     "is not computed from the module's provide forms"),
                fn.loc(b["line"]), sample=True)
+    # (3) an only-in list restricts: where names are requested, the map of all provided macros is emptied first (its contents
+    # moved aside), so that only the requested ones are in it afterwards
+    emptiers = [i for i, b in fn.calls() if b["args"] and (
+        (re.search(r"core::mem::(take|replace)$", b["callee"]) or re.search(r"HashMap<K,V,S,A>\}::(clear|drain)$", b["callee"]))
+        and exported in {o.split(".")[0] for o in c07._origins(fn, re.match(r"_\d+", b["args"][0]).group(0), maps, depth=6)}
+        | set(x for x in lib.alias_sources(fn, re.match(r"_\d+", b["args"][0]).group(0)) if re.match(r"^_\d+$", x)))]
+    if requested_sites:
+        okr = all(any(e in dom[i] for e in emptiers) for i in requested_sites)
+        R.inst("C14.f", "find_in_scope_macros / an only-in list leaves only the listed macros importable", okr,
+               "find_in_scope_macros adds the requested macros to the map of ALL provided macros without emptying it first: "
+               "(require (only-in \"m.scm\" f)) still makes every macro m.scm provides available to the requirer, although "
+               "it asked for f only", fn.loc(fn.blocks[requested_sites[0]].get("line")), sample=True)
     R.floor("C14.f", "insertions of module macros into the importable map", n, 2)
